@@ -431,6 +431,8 @@ class Interp:
             if key in self.calls:
                 if self.calls[key] == "native":  # the contract vouches for running this callable natively
                     return fn(*args, **kwargs)
+                if getattr(self.calls[key], "wants_receiver", False) and isinstance(fn, types.MethodType):
+                    return self.calls[key](self, fn.__self__, *args, **kwargs)  # bound method of a real object
                 return self.calls[key](self, *args, **kwargs)
         if isinstance(fn, types.MethodType) and not isinstance(fn.__self__, type):
             key = "%s.%s" % (type(fn.__self__).__name__, fn.__name__)  # bound method of a real object
@@ -1094,6 +1096,10 @@ class Interp:
                 if not self.truth(slen(v) == n):
                     raise ValueError("unpack length mismatch")
                 vals = [v[i] for i in range(n)]
+            elif isinstance(v, SRef) and ("unpack:%s" % v.cls) in self.calls:
+                # an element of a symbolic list that the code treats as a tuple (dict.items()): the contract says
+                # what its components are
+                vals = list(self.calls["unpack:%s" % v.cls](self, v))
             else:
                 vals = list(v)
             if any(isinstance(e, ast.Starred) for e in t.elts):
